@@ -2,13 +2,15 @@ module verifharness
 
 go 1.22.0
 
-require github.com/enbility/spine-go v0.0.0
+require (
+	github.com/enbility/spine-go v0.0.0
+	github.com/rickb777/date v1.21.1
+)
 
 require (
 	github.com/ahmetb/go-linq/v3 v3.2.0 // indirect
 	github.com/enbility/ship-go v0.0.0-20241006160314-3a4325a1a6d6 // indirect
 	github.com/golanguzb70/lrucache v1.2.0 // indirect
-	github.com/rickb777/date v1.21.1 // indirect
 	github.com/rickb777/plural v1.4.2 // indirect
 )
 
